@@ -181,6 +181,73 @@ theorem C39_odict_refines_ordered_map (s : OD K V) (m : List (K × V)) (op : Op 
       simp only [OD.step, OD.unpickleLegacy, hi, Op.toA, Spec.step, Out.ofObj, Out.toA, Out.ObjInv]
       exact ⟨hm ▸ h, by simp [(rel_iff.1 hu).2], hu.inv⟩
 
+/-- **a rejected call is a no-op (odict)**: whenever a call on a well formed odict raises (KeyError of a missing or
+already present key, ValueError of `reorder` with a non-odict, …) the object is exactly as it was — both the dict
+part and `_keys`. -/
+theorem C39_rejected_op_is_noop (s : OD K V) (m : List (K × V)) (op : Op K V) (h : Rel s m) (ha : op.ArgsInv)
+    (e : Err) (he : (OD.step s op).2 = .err e) : (OD.step s op).1 = s := by
+  cases op with
+  | setitem k v => simp [OD.step] at he
+  | delitem k =>
+    simp only [OD.step, OD.delitem] at he ⊢
+    by_cases hk : dhas s.d k = true
+    · have : k ∈ s.keys := (h.mem_keys k).2 ((dhas_iff _ _).1 hk)
+      simp [hk, this, Out.ofUnit] at he
+    · simp [hk]
+  | getitem k => rfl
+  | contains k => rfl
+  | get k d => rfl
+  | len => rfl
+  | keys => rfl
+  | values => rfl
+  | items => rfl
+  | append k v =>
+    simp only [OD.step, OD.append] at he ⊢
+    by_cases hk : s.has k = true
+    · simp [hk]
+    · simp [hk, Out.ofUnit] at he
+  | clear => simp [OD.step] at he
+  | copy => rfl
+  | create ps => simp [OD.step] at he
+  | sift fs => rfl
+  | insert i k v =>
+    simp only [OD.step, OD.insert] at he ⊢
+    by_cases hk : s.has k = true
+    · simp [hk]
+    · simp [hk, Out.ofUnit] at he
+  | pop k d =>
+    simp only [OD.step, OD.pop] at he ⊢
+    cases hg : dget s.d k with
+    | some v => simp [hg, Out.ofVal] at he
+    | none =>
+      cases d with
+      | none => simp [hg]
+      | some dv => simp [hg, Out.ofVal] at he
+  | popitem =>
+    simp only [OD.step, OD.popitem, OD.popitemWith] at he ⊢
+    cases hl : s.keys.getLast? with
+    | none => simp [hl]
+    | some k =>
+      obtain ⟨v, h1, h2, h3⟩ := h.popLast hl
+      have hk : k ∈ s.keys := List.mem_of_getLast? hl
+      have hd : dhas s.d k = true := (dhas_iff _ _).2 ((h.mem_keys k).1 hk)
+      simp [hl, h2, OD.delitem, hd, hk] at he
+  | reorder o =>
+    have ho : Rel o (absOf o) := Inv.rel ha
+    obtain ⟨h1, _⟩ := h.reorder ho
+    simp [OD.step, h1, Out.ofUnit] at he
+  | reorderBad => rfl
+  | setdefault k d =>
+    simp only [OD.step, OD.setdefault] at he
+    cases hg : dget s.d k <;> simp [hg, Out.ofVal] at he
+  | update ps => simp [OD.step] at he
+  | eq o => rfl
+  | reversed => rfl
+  | ior ps => simp [OD.step] at he
+  | or ps => rfl
+  | pickle => rfl
+  | pickleLegacy => rfl
+
 /-- **odict, every history**: any sequence of calls on a well formed odict is matched call by call by the
 reference ordered dictionary: same results/exceptions, same final contents. -/
 theorem C39_odict_history (ops : List (Op K V)) (s : OD K V) (m : List (K × V)) (h : Rel s m)
@@ -476,6 +543,55 @@ theorem C39_lodict_case_insensitive (f : K → K) (hf : ∀ k, lower (f k) = low
   | reorder o => rfl
   | reorderBad => rfl
   | eq o => rfl
+
+/-- **a rejected call is a no-op (lodict)** -/
+theorem C39_lodict_rejected_is_noop (hl : ∀ k, lower (lower k) = lower k) (s : OD K V) (m : List (K × V))
+    (op : Op K V) (h : Rel s m) (hlow : Lowered lower s) (ha : op.ArgsInv) (e : Err)
+    (he : (LOD.step lower s op).2 = .err e) : (LOD.step lower s op).1 = s := by
+  have via : ∀ op' : Op K V, LOD.step lower s op = OD.step s op' → op'.ArgsInv → (LOD.step lower s op).1 = s := by
+    intro op' e1 ha'
+    rw [e1] at he ⊢
+    exact C39_rejected_op_is_noop s m op' h ha' e he
+  cases op with
+  | setitem k v => exact via (.setitem (lower k) v) rfl trivial
+  | delitem k => exact via (.delitem (lower k)) rfl trivial
+  | getitem k => exact via (.getitem (lower k)) rfl trivial
+  | contains k => exact via (.contains (lower k)) rfl trivial
+  | get k d => exact via (.get (lower k) d) rfl trivial
+  | len => exact via .len rfl trivial
+  | keys => exact via .keys rfl trivial
+  | values => exact via .values rfl trivial
+  | items => exact via .items rfl trivial
+  | append k v => exact via (.append (lower k) v) rfl trivial
+  | clear => exact via .clear rfl trivial
+  | pop k d => exact via (.pop (lower k) d) rfl trivial
+  | reorderBad => exact via .reorderBad rfl trivial
+  | eq o => exact via (.eq o) rfl ha
+  | reversed => exact via .reversed rfl trivial
+  | insert i k v =>
+    exact via (.insert i (lower k) v) (by simp [LOD.step, OD.step, LOD.insert, OD.insert, LOD.has, hl]) trivial
+  | popitem =>
+    refine via .popitem ?_ trivial
+    simp only [LOD.step, OD.step, LOD.popitem, OD.popitem, OD.popitemWith]
+    cases hk : s.keys.getLast? with
+    | none => rfl
+    | some k => simp only [LOD.delitem, hlow k (List.mem_of_getLast? hk)]
+  | copy => rfl
+  | sift fs => rfl
+  | or ps => rfl
+  | pickle => rfl
+  | pickleLegacy => rfl
+  | create ps => simp [LOD.step] at he
+  | setdefault k d =>
+    simp only [LOD.step, LOD.setdefault] at he
+    cases hg : OD.getitem s (lower k) <;> simp [hg, Out.ofVal] at he
+  | update ps => simp [LOD.step, LOD.update_eq hl, Out.ofUnit] at he
+  | ior ps => simp [LOD.step, LOD.update_eq hl, Out.ofUnit] at he
+  | reorder o =>
+    have ho : Rel o (absOf o) := Inv.rel ha
+    obtain ⟨c, hc1, hc2⟩ := LOD.init_rel (V := V) hl (absOf o)
+    obtain ⟨h1, _⟩ := h.reorder hc2
+    simp [LOD.step, LOD.reorder, LOD.initFrom, ho.items, hc1, h1, Out.ofUnit] at he
 
 /-- **lodict, every history** -/
 theorem C39_lodict_history (hl : ∀ k, lower (lower k) = lower k) (ops : List (Op K V)) (s : OD K V)
@@ -933,12 +1049,14 @@ theorem C39_modict_refines_multimap (s : OD K (List V)) (m : List (K × List V))
       | none => simp only [Option.bind_some, hl]; exact ⟨⟨h.madd k d, MSpec.nonEmpty_add hne k d⟩, rfl, trivial⟩
       | some v => simp only [Option.bind_some, hl]; exact ⟨⟨h, hne⟩, rfl, trivial⟩
   | pop k d i =>
-    simp only [MD.step, MD.pop, MD.poplist, OD.pop, MOp.toA, MSpec.step, h.get]
+    simp only [MD.step, MD.pop, OD.pop, MOp.toA, MSpec.step, h.get]
     cases hg : dget s.d k with
     | some l =>
       have : k ∈ s.keys := (h.mem_keys k).2 (dget_some_mem hg)
-      simp only [this, if_true]
-      cases hl : pyIndex l i <;>
+      cases hp : pyIndex l i with
+      | none => simp only [hp]; exact ⟨⟨h, hne⟩, rfl, trivial⟩
+      | some v =>
+        simp only [hp, hg, this, if_true]
         exact ⟨⟨h.delete k, MSpec.nonEmpty_ddel hne k⟩, rfl, trivial⟩
     | none =>
       cases d with
@@ -985,7 +1103,7 @@ theorem C39_modict_refines_multimap (s : OD K (List V)) (m : List (K × List V))
         simp only [h1, OD.pop, h2, hk, if_true]
         exact ⟨⟨h3, fun p hp => hne p (List.mem_of_mem_tail hp)⟩, rfl, trivial⟩
   | popitem last i =>
-    simp only [MD.step, MD.popitem, MD.poplistitem, MOp.toA, MSpec.step]
+    simp only [MD.step, MD.popitem, MOp.toA, MSpec.step]
     cases last with
     | true =>
       simp only [if_true]
@@ -998,8 +1116,11 @@ theorem C39_modict_refines_multimap (s : OD K (List V)) (m : List (K × List V))
       | some k =>
         obtain ⟨l, h1, h2, h3⟩ := h.popLast hl
         have hk : k ∈ s.keys := List.mem_of_getLast? hl
-        simp only [h1, OD.pop, h2, hk, if_true]
-        cases hl : pyIndex l i <;>
+        simp only [h1, h2]
+        cases hp : pyIndex l i with
+        | none => simp only [hp]; exact ⟨⟨h, hne⟩, rfl, trivial⟩
+        | some v =>
+          simp only [hp, OD.pop, h2, hk, if_true]
           exact ⟨⟨h3, fun p hp => hne p (List.dropLast_subset _ hp)⟩, rfl, trivial⟩
     | false =>
       simp only [Bool.false_eq_true, if_false]
@@ -1012,8 +1133,11 @@ theorem C39_modict_refines_multimap (s : OD K (List V)) (m : List (K × List V))
       | some k =>
         obtain ⟨l, h1, h2, h3⟩ := h.popFirst hl
         have hk : k ∈ s.keys := List.mem_of_mem_head? hl
-        simp only [h1, OD.pop, h2, hk, if_true]
-        cases hl : pyIndex l i <;>
+        simp only [h1, h2]
+        cases hp : pyIndex l i with
+        | none => simp only [hp]; exact ⟨⟨h, hne⟩, rfl, trivial⟩
+        | some v =>
+          simp only [hp, OD.pop, h2, hk, if_true]
           exact ⟨⟨h3, fun p hp => hne p (List.mem_of_mem_tail hp)⟩, rfl, trivial⟩
   | fromkeys sq d =>
     have hc := (Rel.empty (K := K) (V := List V)).maddAll (sq.map (fun k => (k, d)))
@@ -1076,6 +1200,93 @@ theorem C39_modict_views_consistent (s : OD K (List V)) (m : List (K × List V))
     nl, ?_, ?_, by rw [h2, hr.keys], h3⟩
   · simp [MD.items, hr.items, mapNewest_eq, h1]
   · simp [MD.values, MD.items, hr.items, mapNewest_eq, h1]
+
+/-- **a rejected call is a no-op (modict)**: whatever a call raises — KeyError of a missing key or an empty modict,
+IndexError of `pop(key, index=i)` / `popitem(index=i)` with an index outside the key's value list (fix D39g) —
+the modict is exactly as it was. -/
+theorem C39_modict_rejected_is_noop (s : OD K (List V)) (m : List (K × List V)) (op : MOp K V) (hm : MRel s m)
+    (e : Err) (he : (MD.step s op).2 = .err e) : (MD.step s op).1 = s := by
+  obtain ⟨h, _⟩ := hm
+  cases op with
+  | setitem k v => simp [MD.step] at he
+  | append k v => simp [MD.step] at he
+  | delitem k =>
+    simp only [MD.step, OD.delitem] at he ⊢
+    by_cases hk : dhas s.d k = true
+    · have : k ∈ s.keys := (h.mem_keys k).2 ((dhas_iff _ _).1 hk)
+      simp [hk, this, MD.outOf] at he
+    · simp [hk]
+  | clear => simp [MD.step] at he
+  | replace k v => simp [MD.step] at he
+  | setdefault k d =>
+    simp only [MD.step, MD.setdefault] at he
+    cases hg : OD.getitem s k with
+    | error _ => simp [hg, MD.outOf] at he
+    | ok l => cases hl : l.getLast? <;> simp [hg, hl, MD.outOf] at he
+  | pop k d i =>
+    simp only [MD.step, MD.pop] at he ⊢
+    cases hg : dget s.d k with
+    | some l =>
+      simp only [hg] at he ⊢
+      cases hp : pyIndex l i with
+      | some v => simp [hp, MD.outOf] at he
+      | none => rfl
+    | none => cases d <;> rfl
+  | poplist k d =>
+    simp only [MD.step, MD.poplist, OD.pop] at he ⊢
+    cases hg : dget s.d k with
+    | some l => simp [hg, MD.outOf] at he
+    | none => cases d <;> simp [hg]
+  | popitem last i =>
+    simp only [MD.step, MD.popitem] at he ⊢
+    cases hx : (if last = true then s.keys.getLast? else s.keys.head?) with
+    | none => rfl
+    | some k =>
+      simp only [hx] at he ⊢
+      cases hg : dget s.d k with
+      | none => rfl
+      | some l =>
+        simp only [hg] at he ⊢
+        cases hp : pyIndex l i with
+        | some v => simp [hp, MD.outOf] at he
+        | none => rfl
+  | poplistitem last =>
+    simp only [MD.step, MD.poplistitem] at he ⊢
+    cases hx : (if last = true then s.keys.getLast? else s.keys.head?) with
+    | none => simp [hx]
+    | some k =>
+      simp only [hx, OD.pop] at he
+      have hk : k ∈ s.keys := by
+        cases last <;> simp at hx
+        · exact List.mem_of_mem_head? hx
+        · exact List.mem_of_getLast? hx
+      obtain ⟨l, hl⟩ := Option.isSome_iff_exists.1 ((dget_isSome_iff s.d k).2 ((h.mem_keys k).1 hk))
+      simp [hl, MD.outOf] at he
+  | update ps => simp [MD.step] at he
+  | updateFrom o =>
+    simp only [MD.step, MD.updateFrom] at he ⊢
+    cases ho : MD.allitems o with
+    | error e' => simp [ho]
+    | ok l => simp [ho, MD.outOf] at he
+  | create ps => simp [MD.step] at he
+  | ior ps => simp [MD.step] at he
+  | getitem _ => rfl
+  | contains _ => rfl
+  | len => rfl
+  | keys => rfl
+  | values => rfl
+  | listvalues => rfl
+  | allvalues => rfl
+  | items => rfl
+  | listitems => rfl
+  | allitems => rfl
+  | copy => rfl
+  | get _ _ _ => rfl
+  | getlist _ => rfl
+  | fromkeys _ _ => rfl
+  | eq _ => rfl
+  | reversed => rfl
+  | or _ => rfl
 
 /-- **modict, every history** -/
 theorem C39_modict_history (ops : List (MOp K V)) (s : OD K (List V)) (m : List (K × List V))
@@ -1301,6 +1512,45 @@ theorem C39_oset_nodup (l : List K) (op : SOp K) (hn : l.Nodup) :
   | ge o => exact ⟨hn, by simp [SSpec.step]⟩
   | gt o => exact ⟨hn, by simp [SSpec.step]⟩
   | eq o => cases o <;> exact ⟨hn, by simp [SSpec.step]⟩
+
+/-- **a rejected call is a no-op (oset)**: `remove` of a missing element and `pop` from an empty set change nothing -/
+theorem C39_oset_rejected_is_noop (l : List K) (op : SOp K) (e : Err) (he : (OSet.step l op).2 = .err e) :
+    (OSet.step l op).1 = l := by
+  cases op with
+  | remove k =>
+    simp only [OSet.step, OSet.remove] at he ⊢
+    by_cases hk : k ∈ l
+    · simp [hk] at he
+    · simp [hk]
+  | pop last =>
+    simp only [OSet.step, OSet.pop] at he ⊢
+    cases hx : (if last = true then l.getLast? else l.head?) with
+    | none => simp [hx]
+    | some k => simp [hx] at he
+  | add k => simp [OSet.step] at he
+  | discard k => simp [OSet.step] at he
+  | clear => simp [OSet.step] at he
+  | ior o => simp [OSet.step] at he
+  | iand o => simp [OSet.step] at he
+  | ixor o => simp [OSet.step] at he
+  | isub o => simp [OSet.step] at he
+  | ixorSelf => simp [OSet.step] at he
+  | isubSelf => simp [OSet.step] at he
+  | contains _ => rfl
+  | len => rfl
+  | iter => rfl
+  | reversed => rfl
+  | or _ => rfl
+  | and _ => rfl
+  | sub _ => rfl
+  | rsub _ => rfl
+  | xor _ => rfl
+  | isdisjoint _ => rfl
+  | le _ => rfl
+  | lt _ => rfl
+  | ge _ => rfl
+  | gt _ => rfl
+  | eq _ => rfl
 
 /-- **oset, every history** (operand osets duplicate free, as every reachable oset is) -/
 theorem C39_oset_history (ops : List (SOp K)) (l : List K) (hn : l.Nodup) (ha : ∀ op ∈ ops, op.ArgsOk) :
